@@ -8,6 +8,7 @@
 //!                                    | Path::is_absolute, Path::components (std vs the std::path section of the model)
 //!   to s <url string code points>  to_file_path of Url::parse(string) (the model gets the parsed record)
 //!   patheq <p> <q>                 PathBuf == PathBuf
+//!   pathjoin <p> <f>               Path::join
 //!   join <dir path bytes> <reference code points>   from_directory_path(p).join(reference): record | to_file_path
 //!   name <file name bytes>         reference for the name, plain_name, simple_name (Coq vs Rust predicate)
 use percent_encoding::{percent_encode, AsciiSet, CONTROLS};
@@ -154,6 +155,7 @@ fn impl_request(req: &str) -> String {
             None => "nourl".into(),
         },
         ("patheq", 3) => format!("{}", (path_of(&unhexb(w[1])) == path_of(&unhexb(w[2]))) as u8),
+        ("pathjoin", 3) => hexb(path_of(&unhexb(w[1])).join(path_of(&unhexb(w[2]))).as_os_str().as_bytes()),
         ("join", 3) => impl_join(&unhexb(w[1]), &unhexs(w[2])),
         ("name", 2) => impl_name(&unhexb(w[1])),
         _ => "?".into(),
@@ -196,6 +198,7 @@ fn signature(req: &str, out: &str) -> (bool, String) {
             (true, format!("to:{}:{}", cls(out), hack))
         }
         "patheq" => (true, format!("patheq:{}", out)),
+        "pathjoin" => (true, format!("pathjoin:{}:{}:{}", w[1] == "-", w[1].ends_with("2f"), w[2].starts_with("2f"))),
         "join" => {
             let mut it = out.split(" | ");
             let a = it.next().unwrap_or("");
@@ -387,6 +390,10 @@ fn run_corr(args: &Args) -> Report {
     }
     for f in name_pool() {
         compare(&mut drv, &mut rep, "exh-name", &format!("name {}", hexb(f)));
+        for d in dir_pool() {
+            compare(&mut drv, &mut rep, "exh-pathjoin", &format!("pathjoin {} {}", hexb(d), hexb(f)));
+        }
+        compare(&mut drv, &mut rep, "exh-pathjoin", &format!("pathjoin - {}", hexb(f)));
     }
     for_all_strings(&[b'.', b'a', b'c', b':', b'|', b'%', b'2', b'e', b'?', b'\\'], if thorough { 4 } else { 3 }, |s| {
         for d in [&b"/"[..], b"/d", b"/c:"] {
@@ -422,6 +429,8 @@ fn run_corr(args: &Args) -> Report {
             random_path(&mut rng)
         };
         compare(&mut drv, &mut rep, "rnd-patheq", &format!("patheq {} {}", h, hexb(&q)));
+        let f = if rng.chance(1, 4) { random_path(&mut rng) } else { random_component(&mut rng) };
+        compare(&mut drv, &mut rep, "rnd-pathjoin", &format!("pathjoin {} {}", h, hexb(&f)));
         let s = random_to_url(&mut rng);
         compare(&mut drv, &mut rep, "rnd-to-url", &format!("to s {}", hexs(&s)));
     }
